@@ -118,7 +118,7 @@ def run_all(cases, have_drv=True, workers=16):
 
 def run(res, tier, seed, search=False, have_drv=True):
     rnd = random.Random(seed)
-    cases, exhaustive_counts = [], {}
+    cases, exhaustive_counts = C.load_case_corpus("C03", "sched"), {}
     if have_drv:
         for cfg in (CONFIGS_QUICK if tier == "quick" else CONFIGS_THOROUGH):
             scheds = enumerate_schedules(cfg, 3000 if tier == "quick" else 400000)
